@@ -2,7 +2,7 @@
 // Built with the `lorawan-radio` feature; lorawan-device's async front-end traits are de-async'd too (Y1).
 // @inject file=lora-phy/src/lorawan_radio.rs mod=verif_lorawan_radio
 // @job pkg=lora-phy features=lorawan-radio zflags=function-contracts,stubbing
-// @requires common_tape phy_common
+// @requires common_tape phy_common phy_lora
 // @deasync lora-phy/src/lorawan_radio.rs lorawan-device/src/async_device/mod.rs lorawan-device/src/async_device/radio.rs
 // @subst lora-phy/Cargo.toml <<default-features = false, version = "0.12", optional = true }>> => <<default-features = false, features = ["region-eu868"], version = "0.12", optional = true }>>
 // @subst lorawan-device/src/async_device/mod.rs "#[cfg(test)]" => "#[cfg(all(test, not(kani)))]"
@@ -76,3 +76,42 @@ fn c17_rxmode_from_sf12() { rxmode_from_contract(7, false) }
 #[kani::proof]
 #[kani::unwind(12)]
 fn c17_rxmode_from_kf1_witness() { rxmode_from_contract(2, true) }
+
+// ================================================================================================ C18: the LoRaWAN adapter hands the MAC exactly those bytes
+// LorawanRadio::{rx_single, rx_continuous} over LoRa::rx over the abstract chip of phy_lora.rs (whose get_rx_payload contract-stub
+// is the contract the SX126x / SX127x / LR11xx get_rx_payload harnesses discharge: Ok(n) => n <= buf.len(), buf[..n] written, rest untouched).
+use crate::verif_lora::{any_lora, pp, LAST_LEN, LAST_RSSI, LAST_SNR};
+use crate::RadioMode;
+fn adapter_rx(single: bool) {
+    tape::init();
+    let l = any_lora();
+    kani::assume(matches!(l.radio_mode, RadioMode::Receive(_)));
+    let mut r: LorawanRadio<crate::verif_lora::Chip, crate::verif_phy::MockDelay, 14> = LorawanRadio::from(l);
+    let has_params = tape::boolean();
+    if has_params { r.rx_pkt_params = Some(pp()); }
+    let mut buf = [0xA5u8; 16];
+    let (len, quality, timeout, err) = if single {
+        match r.rx_single(&mut buf) { Ok(RxStatus::Rx(n, q)) => (Some(n), Some(q), false, false), Ok(RxStatus::RxTimeout) => (None, None, true, false), Err(e) => { assert!(has_params || matches!(e, Error::NoRxParams), "no packet parameters: refused"); (None, None, false, true) } }
+    } else {
+        match r.rx_continuous(&mut buf) { Ok((n, q)) => (Some(n), Some(q), false, false), Err(e) => { assert!(has_params || matches!(e, Error::NoRxParams), "no packet parameters: refused"); (None, None, false, true) } }
+    };
+    if !has_params { assert!(err && r.lora.radio_kind.cmds == 0, "C18 without a prepared reception nothing is fetched"); }
+    if let (Some(n), Some(q)) = (len, quality) {
+        assert!(n <= 16 && n == unsafe { LAST_LEN } as usize, "C18 the adapter reports exactly the length the chip driver returned, which fits the caller's buffer");
+        let mut i = 0;
+        while i < 16 { assert!(buf[i] == (if i < n { 0x5A } else { 0xA5 }), "C18 exactly those bytes are in the caller's buffer, the rest is untouched"); i += 1; }
+        assert!(q.rssi() == unsafe { LAST_RSSI } && q.snr() as i16 == unsafe { LAST_SNR }, "C17/C18 the reported quality is the driver's packet status");
+        kani::cover!(n == 16, "verif-reached: full buffer");
+        kani::cover!(n == 0, "verif-reached: empty packet");
+    }
+    kani::cover!(timeout, "verif-maybe: window timed out");
+    kani::cover!(err && has_params, "verif-reached: radio error surfaces");
+}
+// @verif props=C18 obligation=LorawanRadio::rx_single.hands_over_driver_bytes label=bounded(3-polls) tier=quick bound="caller buffer of 16 bytes, any reported length, at most 2 inconclusive IRQ polls; sequential executions (Y1)"
+#[kani::proof]
+#[kani::unwind(18)]
+fn c18_lorawan_radio_rx_single() { adapter_rx(true) }
+// @verif props=C18 obligation=LorawanRadio::rx_continuous.hands_over_driver_bytes label=bounded(3-polls) tier=quick bound="caller buffer of 16 bytes, any reported length, at most 2 inconclusive IRQ polls; sequential executions (Y1)"
+#[kani::proof]
+#[kani::unwind(18)]
+fn c18_lorawan_radio_rx_continuous() { adapter_rx(false) }
